@@ -81,7 +81,7 @@ def gen_recipe(rng: random.Random, tier: str = "quick") -> dict:
     if rng.random() < (0.06 if thorough else 0.02):
         n = 200
     huge = 0
-    if flavor != "plain" and n <= 40 and rng.random() < (0.08 if thorough else 0.04):
+    if flavor != "plain" and 1 <= n <= 40 and rng.random() < (0.08 if thorough else 0.04):
         huge = rng.choice([(1 << 31) - 4096, (1 << 31) + 12345, 3 << 30, (1 << 32) - (16 << 20)])
     edges_ok = rng.random() < 0.10     # archive may contain the rare edge shapes (vinline / prefix151)
     members, seen = [], set()
@@ -115,7 +115,8 @@ def gen_recipe(rng: random.Random, tier: str = "quick") -> dict:
             if len(m["link"].encode()) > 100:
                 m["link"] = _path(rng, 100)
         else:
-            m["tf"] = rng.choice(["0"] * 6 + ["\0", "7"])
+            # typeflag NUL = old-style regular file; not after an 'L' record, whose 100-byte name stub may end in '/' (= v7 directory)
+            m["tf"] = rng.choice(["0"] * 6 + ["7"] + ([] if long else ["\0"]))
             empty = rng.random() < 0.15
             if not visor:
                 m["place"], m["size"] = "inline", (0 if empty else _size(rng))
